@@ -133,11 +133,30 @@ def stepStaking' (st : StkState) (toks : List String) : StkState × String :=
   | _ => (st, "bad-op")
 
 /-- a panicking call (also inside a query) ends the case: the harness stops using that `App` -/
-def stepStaking (st : StkState) (toks : List String) : StkState × String :=
+def stepOne (st : StkState) (toks : List String) : StkState × String :=
   if st.dead then (st, "dead") else
+  if toks == ["rawhash"] then (st, "!") else     -- implementation-only observation (hash of the raw storage)
   let r := stepStaking' st toks
   if toks.head? != some "dec" && (r.2 == "panic" || (r.2.splitOn "=panic").length > 1) then
     ({ r.1 with dead := true }, "panic")
   else r
+
+/-- several independent `App` instances (slice `staking-det`); `app <n>` switches, a new name starts a fresh instance;
+ops before any `app` line go to instance `1` -/
+structure StkApps where
+  apps : List (String × StkState) := []
+  cur : String := "1"
+
+def StkApps.get (a : StkApps) : StkState := (a.apps.lookup a.cur).getD StkState.init
+
+def StkApps.put (a : StkApps) (st : StkState) : StkApps :=
+  { a with apps := (a.cur, st) :: a.apps.filter (fun p => p.1 != a.cur) }
+
+def stepStaking (a : StkApps) (toks : List String) : StkApps × String :=
+  match toks with
+  | ["app", n] => ({ a with cur := n }, "ok")
+  | _ =>
+    let r := stepOne a.get toks
+    (a.put r.1, r.2)
 
 end CwMt.Driver.Stk
